@@ -30,13 +30,16 @@ RULE = ("a case is one preprocess configuration (shape, per-image scan angles, p
 TRUSTED = ["scipy.interpolate.interp1d(kind='quadratic'/'cubic') on exactly 3/4 points evaluates the interpolating polynomial",
            "scipy.ndimage.gaussian_filter(mode='reflect') conserves the array sum (measured by the weight-sum predicate)",
            "np.ravel_multi_index(mode='wrap'), np.bincount, np.linspace, np.round (half to even)"]
-ASSUMPTIONS = ["pad fractions are chosen so that n*(1+pad)/2 is at least 1e-6 away from a rounding tie of np.round",
+ASSUMPTIONS = ["pad fractions whose n*(1+pad)/2 is within 1e-6 of (but not exactly on) a rounding tie of np.round are rejected; exact ties (dyadic pad fractions) are kept",
                "weight sums are compared at float32 accuracy (the library accumulates pix_count in float32)",
-               "the fixed-point clause is required to 1e-6 px (float noise of the FFT correlation of float32 canvases)"]
+               "the fixed-point clause and the align_translation correspondence are evaluated at the float32 tolerance 5e-4 px: the "
+               "library stores the warped canvases as float32 and np.fft.fft2 (NumPy >= 2) keeps them complex64, so the measured "
+               "shift of an identical stack is float32 noise (observed <= 3e-6 px), not exactly 0"]
 EXPLANATION = ("Theorems in Props/C15.lean are about Model/Drift.lean; every run drives the real drift code and the model with the "
                "same configurations and compares canvas shapes, knots, coordinates, raw weight maps and measured shifts.")
 
 TOL64 = 1e-9
+TOL32 = 5e-4   # align_translation: the canvases are stored as float32 and np.fft.fft2 keeps them complex64
 
 
 def _drv():
@@ -104,9 +107,17 @@ def case_coords(ctx, drv, case):
     images = [make_image(rng, H, W) for _ in angles]
     Hc_o, tie1 = canvas_oracle(H, pad)
     Wc_o, tie2 = canvas_oracle(W, pad)
-    if min(tie1, tie2) < 1e-6:
-        ctx.dist["coords:rejected(np.round tie)"] += 1
+    if any(0 < t < 1e-6 for t in (tie1, tie2)):
+        # a near-tie could be decided by float rounding of n*(1+pad)/2; an exact tie (dyadic pad, exact float
+        # arithmetic) is kept: it is what exercises np.round's half-to-even rule
+        ctx.dist["coords:rejected(np.round near-tie)"] += 1
         return
+    if Hc_o == 0 or Wc_o == 0:
+        # a 1-pixel-wide image with pad 0 rounds to an empty canvas (0.5 -> 0): no resampling exists to be checked
+        ctx.dist["coords:rejected(empty canvas for a 1-pixel-wide image)"] += 1
+        return
+    if tie1 == 0 or tie2 == 0:
+        ctx.dist["coords:exact np.round tie (half-to-even exercised)"] += 1
     ctx.count()
     ctx.dist[f"coords:nk={nk}"] += 1
     ctx.dist[f"coords:shape={shape_sig(H, W)}"] += 1
@@ -226,7 +237,7 @@ def case_align(ctx, drv, case):
         images = [base.copy() for _ in range(n)]
     else:
         images = [np.roll(base, (t[0], t[1]), (0, 1)) for t in case["ts"]]
-    if min(canvas_oracle(H, pad)[1], canvas_oracle(W, pad)[1]) < 1e-6:
+    if any(0 < t < 1e-6 for t in (canvas_oracle(H, pad)[1], canvas_oracle(W, pad)[1])):
         return
     ctx.count()
     ctx.dist[f"align:{'identical' if case['identical'] else 'shifted'}"] += 1
@@ -246,7 +257,7 @@ def case_align(ctx, drv, case):
     moved = max(max(abs(v) for v in p) for p in dxy)
     if case["identical"]:
         ctx.stat_max(f"identical_stack_knot_motion[up={'1' if up <= 1 else '>1'}]", moved)
-        if not moved <= 1e-6:
+        if not moved <= TOL32:
             ctx.pred_fail(f"fixed-point-{'up1' if up <= 1 else 'upsampled'}",
                           "a stack of identical images is not a fixed point of align_translation (knots moved)", case,
                           observed={"dxy": dxy}, required="zero shifts, knots unchanged")
@@ -259,7 +270,7 @@ def case_align(ctx, drv, case):
         Hc, Wc = warped[0].shape
         wrapdist = max(min(abs(a - b), abs(abs(a - b) - s)) for p, q in zip(md, dxy) for a, b, s in zip(p, q, (Hc, Wc)))
         ctx.stat_max("align:dxy model-vs-impl", dist)
-        if not dist <= 1e-6 * max(1.0, moved):
+        if not dist <= TOL32 * max(1.0, max(abs(v) for p in md for v in p)):
             ctx.disagree("align", case, {"dxy": md}, {"dxy": dxy}, note=f"alignShifts/removeMean vs align_translation (mod-canvas distance {wrapdist:.3g})")
     ctx.mark(("align", case["identical"], shape_sig(H, W), nk, angle_class(deg), n, up))
     ctx.sample(case, limit=6)
